@@ -51,8 +51,12 @@ pub fn plan(prop: &str, thorough: bool) -> Plan {
     let profiles = match (prop, thorough) {
         ("C01", false) => profs(&["release", "dev", "relchk"]),
         ("C01", true) => profs(&["release", "dev", "relchk", "devnochk"]),
-        ("C11", _) | ("C12", _) | ("C16", _) => profs(&["release", "dev"]),
-        _ => profs(&["release"]),
+        // boundary and history / schedule engines: one build of the library under the harness
+        ("C17", _) | ("C18", _) | ("C19", _) => profs(&["release"]),
+        // every E1 space runs with overflow checks and debug assertions off (release) and on (relchk:
+        // release code generation + overflow-checks + debug-assertions, i.e. what a debug build checks)
+        (_, false) => profs(&["release", "relchk"]),
+        (_, true) => profs(&["release", "relchk", "dev"]),
     };
     Plan { profiles, shards: 16, single_outcome_ok: false }
 }
@@ -156,7 +160,7 @@ pub fn replay_special(_prop: &str, rec: &Value) -> Option<i32> {
     if rec["case"].get("schedule").is_some() {
         return Some(crate::sched::replay(rec));
     }
-    if rec["case"].get("argv").is_some() {
+    if rec["case"].get("argv").is_some() || rec["case"].get("argv_hex").is_some() {
         return Some(crate::boundary::replay_cli(rec));
     }
     None
